@@ -60,8 +60,55 @@ def _case(draw, ctx):
     return {"spec": spec, "adv_names": adv}
 
 
+@st.composite
+def _series(draw, ctx):
+    """Two or three feedback loops in series (separate strongly connected components joined by
+    bridge nodes), with extra forward edges from an earlier loop to later bridges / loops, stored in a
+    drawn order."""
+    nodes = [["i0", "input", [], False], ["i1", "input", [], draw(st.booleans())]]
+    stages = []  # list of lists of node names, in dependency order
+    prev_feed = ["i0", "i1"]
+    n_loops = draw(st.integers(2, 3))
+    k = 0
+    for li in range(n_loops):
+        size = draw(st.integers(2, 3))
+        loop = [f"l{li}{chr(97 + j)}" for j in range(size)]
+        for j, n in enumerate(loop):
+            t = draw(st.sampled_from(S.NARY))
+            fi = [loop[j - 1]]
+            if j == 0:
+                fi.append(draw(st.sampled_from(prev_feed)))
+            nodes.append([n, t, fi, draw(st.integers(0, 3)) == 0])
+        stages.append(loop)
+        if li < n_loops - 1:
+            br = f"br{li}"
+            nodes.append([br, draw(st.sampled_from(S.NARY)), [draw(st.sampled_from(loop))], False])
+            stages.append([br])
+            prev_feed = [br]
+    # forward edges between stages (never backwards: the components stay separate)
+    byname = {x[0]: x for x in nodes}
+    for _ in range(draw(st.integers(0, 5))):
+        a = draw(st.integers(0, len(stages) - 2))
+        b = draw(st.integers(a + 1, len(stages) - 1))
+        u = draw(st.sampled_from(stages[a]))
+        v = draw(st.sampled_from(stages[b]))
+        if u not in byname[v][2]:
+            byname[v][2] = byname[v][2] + [u]
+    # a few more edges inside loops
+    for _ in range(draw(st.integers(0, 2))):
+        loop = draw(st.sampled_from([s_ for s_ in stages if len(s_) > 1]))
+        u, v = draw(st.sampled_from(loop)), draw(st.sampled_from(loop))
+        if u != v and u not in byname[v][2]:
+            byname[v][2] = byname[v][2] + [u]
+    byname[stages[-1][-1]][3] = True
+    for x in nodes:
+        x[2] = list(draw(st.permutations(x[2])))
+    nodes = list(draw(st.permutations(nodes)))
+    return {"spec": {"name": "c", "nodes": nodes, "bbtypes": [], "insts": []}, "adv_names": False}
+
+
 def strategy(ctx):
-    return _case(ctx)
+    return st.one_of(_case(ctx), _case(ctx), _series(ctx))
 
 
 def _on_cycle(c):
